@@ -22,6 +22,7 @@ pub mod c15;
 pub mod c15_sched;
 pub mod c16;
 pub mod c17;
+pub mod c17_sched;
 pub mod c18;
 
 pub fn all() -> Vec<Box<dyn Check>> {
